@@ -55,11 +55,20 @@ def canon(line):
     return ' '.join(line.split())
 
 
+PATCH_STATS = []   # (spec, patches of published code, of them straddling a page boundary, mask of page-offset buckets)
+
+
 def run_prog(exe, path, specs, calls, opt=2, timeout=300):
-    # a spec 'far!<groups>' runs with the far code allocator (harness: <opt>f)
-    lines = ['I %s %d%s %s | %s' % (path, opt, 'f' if s.startswith('far!') else '', s[4:] if s.startswith('far!') else s,
-                                   ' ; '.join(calls)) for s in specs]
+    # a spec 'far!<groups>' runs with the far code allocator (harness: <opt>f), 'cnt!<groups>' with the allocator that
+    # counts the patches of published code (<opt>p); the count is evidence, not behaviour: stripped from the answer
+    lines = ['I %s %d%s %s | %s' % (path, opt, 'f' if s.startswith('far!') else ('p' if s.startswith('cnt!') else ''),
+                                   s[4:] if s[:4] in ('far!', 'cnt!') else s, ' ; '.join(calls)) for s in specs]
     rc, out, err = vlib.run_lines(exe, lines, timeout=timeout)
+    for i, o in enumerate(out):
+        m = re.search(r' #patch=(\d+),(\d+),([0-9a-f]+)', o)
+        if m:
+            out[i] = o.replace(m.group(0), '')
+            PATCH_STATS.append((i, int(m.group(1)), int(m.group(2)), int(m.group(3), 16)))
     # an ERROR answer spans several lines: re-split on the leading 'I'
     joined = []
     for o in out:
@@ -180,7 +189,7 @@ def death_site(o):
     return w[4] if len(w) > 4 else 'unknown'
 
 
-def shrink_prog(exe, text, specs2, calls, opt, site=None):
+def shrink_prog(exe, text, specs2, calls, opt, site=None, max_steps=400):
     """delta-debug calls, then body lines, keeping 'the two runs in specs2 disagree and the reference run is clean'
     (or, with site, 'the generator still dies at that site')"""
     def bad(t, cs):
@@ -201,7 +210,7 @@ def shrink_prog(exe, text, specs2, calls, opt, site=None):
         t = '\n'.join(l for i, l in enumerate(lines) if i not in rem_set or i in ks)
         return bad(t, calls)
     rem_set = set(rem)
-    keep = vlib.shrink_list(rem, fails, max_steps=400) if rem else []
+    keep = vlib.shrink_list(rem, fails, max_steps=max_steps) if rem else []
     ks = set(keep)
     text2 = '\n'.join(l for i, l in enumerate(lines) if i not in rem_set or i in ks)
     if not bad(text2, calls):
@@ -429,7 +438,7 @@ def run_mixed(chk, exe, found_limit=2):
 
 # ---------------------------------------------------------------- run
 
-def one_program(chk, exe, rng, k, quick):
+def one_program(chk, exe, rng, k, quick, family='std'):
     # Optimisation level: every program runs at one of -O0..-O3 (census on HEAD f9a528c1, after C01-16..19: 48 seeds
     # x 10 programs x {-O2,-O3} x 8-9 interface runs: no value disagreement, no run-time crash).  What remains at
     # -O2/-O3 on programs WITH label addresses is one generator death owned by C01 (0.8% of programs): the
@@ -438,10 +447,25 @@ def one_program(chk, exe, rng, k, quick):
     # counted in the evidence (c01_owned_generator_death) and not reported here; any other death, and every death on
     # a program without label addresses or at -O0/-O1, is a finding of its own.
     opt = rng.choice([0, 1, 1, 2, 3])
-    prog = G.gen_program(rng, feats=FEATS)
+    if family == 'big':
+        # LARGE functions (tools/gen_c03_progs.py gen_big_program): machine code of many pages, thousands of patched call
+        # sites and branches at all offsets modulo the page size
+        prog = G.gen_big_program(rng)
+        for sg in prog['big_segments']:
+            chk.dist('big_segments', sg)
+        for n in prog['big_insns']:
+            chk.dist('big_function_insns', '%dk' % (n // 1000))
+    elif family == 'lref':
+        # lref data of every form whose labels stand in reachable and unreachable code (lref_dead)
+        prog = G.gen_program(rng, feats=FEATS - {'lref', 'laddr'} if k % 3 == 0 else FEATS, lrefam=True)
+        for sh in prog['lref_shapes']:
+            chk.dist('lref_family_shapes', sh)
+    else:
+        prog = G.gen_program(rng, feats=FEATS)
+    chk.dist('program_family', family)
     path = write_prog(prog['text'], 'p')
     ents = prog['entries']
-    ncalls = rng.randint(2, 6)
+    ncalls = rng.randint(2, 3) if family == 'big' else rng.randint(2, 6)
     calls = [G.gen_call(rng, rng.choice(ents)) for _ in range(ncalls)]
     # an explicit MIR_gen is a valid request only while the function has neither interpreter code nor bb
     # stubs attached (gen_assert (func_item->data == NULL)): ask before the first call
@@ -451,8 +475,14 @@ def one_program(chk, exe, rng, k, quick):
     nolref = [f for f in prog['funcs'] if not f['lref']]
     pre = ['gen %s' % rng.choice(nolref)['name']] if nolref and rng.random() < 0.3 else []
     specs = group_specs(rng, prog)
+    if family == 'big':
+        # one more run with the allocator that counts the patches (evidence: how many patched sites straddle a page
+        # boundary, which page offsets they reach); the whole-function engines and lazy-BB in turn
+        allm = ','.join(str(i) for i in range(prog['nmodules']))
+        specs.append('cnt!%s:%s' % (['gen', 'lazy', 'bb'][k % 3], allm))
+        del PATCH_STATS[:]
     orders = [pre + calls]
-    if len(calls) > 1:
+    if len(calls) > 1 and family != 'big':
         c2 = list(calls)
         rng.shuffle(c2)
         orders.append(pre + c2)
@@ -472,6 +502,10 @@ def one_program(chk, exe, rng, k, quick):
                     chk.dist('c01_owned_generator_death', site)   # until the site is listed in KNOWN_FINDINGS.txt
                 else:
                     deaths.append((site, prog, [specs[0], s], cs, opt))
+        for i, n, st, mask in PATCH_STATS if family == 'big' else []:
+            chk.dist('big_patched_sites', '<100' if n < 100 else ('100-999' if n < 1000 else ('1000-4999' if n < 5000 else '5000+')))
+            chk.dist('big_patches_straddling_a_page', '%s:%s' % (specs[i].split(':')[0][4:], 'none' if st == 0 else ('1-3' if st < 4 else '4+')))
+            chk.dist('big_patch_page_offset_buckets_reached', bin(mask).count('1'))
         d = disagree(outs)
         if d is not None:
             pair = settle(chk, exe, path, specs, cs, opt, outs, d)
@@ -519,7 +553,8 @@ def report_death(chk, exe, site, prog, specs2, cs, opt):
     all.  One finding per death site (innermost generator function on the stack), so that a listed known finding
     covers exactly that defect."""
     known = any(sig == 'gen-died:' + site for sig, _ in chk.known)
-    text, calls = (prog['text'], cs) if known else shrink_prog(exe, prog['text'], specs2, cs, opt, site=site)
+    text, calls = (prog['text'], cs) if known else shrink_prog(exe, prog['text'], specs2, cs, opt, site=site,
+                                                               max_steps=150 if len(prog['text']) > 100000 else 400)
     p = write_prog(text, 'final')
     outs2 = run_prog(exe, p, specs2, calls, opt)
     return chk.finding('gen-died:' + site, dict(kind='ifaces', text=text, specs=specs2, calls=calls, opt=opt, outs=outs2),
@@ -578,8 +613,13 @@ def run(chk):
     if found >= 3:
         return True
     seen_sites = set()
-    for k in range(nprog):
-        res, deaths = one_program(chk, exe, rng, k, quick)
+    # the families of round 3, wave z, first (own random streams: the ordinary programs of a seed stay what they were)
+    nbig, nlref = (8, 40) if quick else (60, 300)
+    brng, lrng = chk.rng('ifaces-big'), chk.rng('ifaces-lref')
+    plan = [('big', j, brng) for j in range(nbig)] + [('lref', j, lrng) for j in range(nlref)]
+    plan += [('std', j, rng) for j in range(nprog)]
+    for family, k, prng in plan:
+        res, deaths = one_program(chk, exe, prng, k, quick, family)
         for site, prog, specs2, cs, opt in deaths:
             if site in seen_sites:
                 continue
